@@ -111,6 +111,7 @@ class Template:
         self.objs = {}
         self.lists = {}
         self.submodules = []        # (name IR or None, value IR, gen frames, lineno)
+        self.zipped_loops = []      # (loop id, sequences, lineno): loops over zip(A, B, ...) read as position-wise (equal lengths assumed)
         self.connects = []          # (a IR, b IR, gen frames, lineno)
         self.calls = []             # other call statements: (IR, gen frames, dsl frames, lineno)
         self.asserts = []
@@ -1305,6 +1306,18 @@ class Walker:
                     out.setdefault(n.target.id, []).append(n)
         return out
 
+    def zip_parts(self, e):
+        """The sequences of zip(S1, S2, ...) when each is a plain expression over the component (names, attributes, subscripts by
+        constants): a loop over the zip visits position k of each of them."""
+        if not (e[0] == 'call' and e[1] == ('name', 'zip') and len(e[2]) >= 2 and not e[3]):
+            return None
+
+        def plain(x):
+            if self.zip_parts(x) is not None:
+                return True
+            return all(y[0] in ('name', 'attr', 'sub', 'const') for y in ir.walk(x)) and any(y == ('name', 'self') for y in ir.walk(x))
+        return tuple(e[2]) if all(plain(a) for a in e[2]) else None
+
     def for_listacc(self, st, accs):
         """for t in xs / for a, b in zip(xs, ys): replay the generation context of every append."""
         n = {len(a.items) for a in accs}
@@ -1521,12 +1534,21 @@ class Walker:
             # enumerate(X) and range(len(X)) walk the same index space
             if nit[0] == 'call' and nit[1] == ('name', 'enumerate') and len(nit[2]) == 1 and not nit[3]:
                 nit = ('idxspace', nit[2][0])
+            # zip(A, B, ...) over component sequences walks the index space of A (equal lengths assumed)
+            while nit[0] == 'idxspace' and self.zip_parts(nit[1]) is not None:
+                nit = ('idxspace', self.zip_parts(nit[1])[0])
+            if nit[0] == 'call' and self.zip_parts(nit) is not None:
+                z0 = self.zip_parts(nit)[0]
+                while self.zip_parts(z0) is not None:
+                    z0 = self.zip_parts(z0)[0]
+                nit = ('idxspace', z0)
             elif nit[0] == 'call' and nit[1] == ('name', 'range') and not nit[3] and (
                     len(nit[2]) == 1 or len(nit[2]) == 2 and nit[2][0] == ('const', 0)) and \
                     nit[2][-1][0] == 'call' and nit[2][-1][1] == ('name', 'len') and len(nit[2][-1][2]) == 1:
                 nit = ('idxspace', nit[2][-1][2][0])
-            if any(x == ('name', 'self') for x in ir.walk(nit)) and \
-                    not any(x[0] in ('sig', 'obj', 'acc', 'carry', 'final', 'listacc') for x in ir.walk(nit)):
+            inner = nit[1] if nit[0] == 'idxspace' else nit
+            if any(x == ('name', 'self') for x in ir.walk(inner)) and \
+                    not any(x[0] in ('sig', 'obj', 'acc', 'carry', 'final', 'listacc') for x in ir.walk(inner)):
                 key = (nit, self.gen)
         except Exception:                                   # pragma: no cover
             key = None
@@ -1568,12 +1590,32 @@ class Walker:
                 isinstance(st.target, ast.Tuple) and len(st.target.elts) == 2 and \
                 isinstance(st.target.elts[0], ast.Name):
             seq = core[2][0]
-            loop = Loop(lid, 'enum', it, seq, st.lineno, names)
+            zp = self.zip_parts(seq)
+            if zp is not None:
+                # enumerate(zip(A, B, ...)): position k of parallel component sequences (assumed equally long: A8)
+                loop = Loop(lid, 'enum', ('call', ('name', 'enumerate'), (zp[0],), ()), zp[0], st.lineno, names)
+                loop.reversed = rev
+                loop.zipped = zp
+                self.t.loops.setdefault(lid, loop)
+                self.t.zipped_loops.append((lid, zp, st.lineno))
+                self.bind_loopvar(st.target.elts[0].id, ('idx', lid))
+                self.bind_pattern(st.target.elts[1], self.elem_of(seq, lid), lid)
+            else:
+                loop = Loop(lid, 'enum', it, seq, st.lineno, names)
+                loop.reversed = rev
+                self.t.loops.setdefault(lid, loop)
+                self.bind_loopvar(st.target.elts[0].id, ('idx', lid))
+                elem = self.elem_of(seq, lid)
+                self.bind_pattern(st.target.elts[1], elem, lid)
+        elif self.zip_parts(core) is not None:
+            # zip(A, B, ...) over component sequences: the same position of each (assumed equally long: A8)
+            zp = self.zip_parts(core)
+            loop = Loop(lid, 'seq', zp[0], zp[0], st.lineno, names)
             loop.reversed = rev
+            loop.zipped = zp
             self.t.loops.setdefault(lid, loop)
-            self.bind_loopvar(st.target.elts[0].id, ('idx', lid))
-            elem = self.elem_of(seq, lid)
-            self.bind_pattern(st.target.elts[1], elem, lid)
+            self.t.zipped_loops.append((lid, zp, st.lineno))
+            self.bind_pattern(st.target, self.elem_of(core, lid), lid)
         else:
             kind = 'gen' if (core[0] == 'call') else 'seq'
             loop = Loop(lid, kind, it, core if kind == 'seq' else None, st.lineno, names)
@@ -1639,6 +1681,9 @@ class Walker:
         return False
 
     def elem_of(self, seq, lid):
+        zp = self.zip_parts(seq)
+        if zp is not None:
+            return ('tuple', tuple(self.elem_of(s_, lid) for s_ in zp))      # position k of zip(A, B) is (A[k], B[k])
         return ('sub', seq, ('idx', lid))
 
     def bind_loopvar(self, name, v):
